@@ -112,6 +112,43 @@ theorem C01_session_from (msgs : List Msg) (hall : ∀ m ∈ msgs, MsgOK m)
       readMessages msgs.length st (W ++ rest) = ok ((msgs.map received, st'), rest) ∧ Clean st' :=
   session msgs hall c st rest hc hic hcl
 
+/-- Duplex: ONE endpoint (one `Protocol`) that writes its own messages and reads the peer's in ANY interleaving
+puts on the wire exactly what a write-only endpoint would for the same messages, and delivers exactly what a
+read-only endpoint would from the same incoming bytes: what it announces with Set Chunk Size governs only what it
+writes, what it receives governs only how it reads. Together with `C01_session` (applied once per direction) this
+is the round trip of a two-way session in which both sides announce chunk sizes at any point. (Tied to the code by
+the duplex sessions of the correspondence run: there the two activities share one `rtmp.Protocol`.) -/
+theorem C01_duplex (acts : List EAct) (e : Endpoint) (inb W : Bytes) (ms : List Msg) (rd' : Reader) (rest : Bytes)
+    (hw : writeAll e.out (writesOf acts) = ok W)
+    (hr : readMessages (readsOf acts) e.rd inb = ok ((ms, rd'), rest)) :
+    e.run inb acts = ok (({ rd := rd', out := outAfterAll e.out (writesOf acts) }, W), (ms, rest)) := by
+  induction acts generalizing e inb W ms rest with
+  | nil =>
+    simp only [writesOf, readsOf, writeAll, readMessages, Res.ok.injEq, Prod.mk.injEq] at hw hr
+    obtain ⟨⟨rfl, rfl⟩, rfl⟩ := hr
+    subst hw
+    rfl
+  | cons a as ih =>
+    cases a with
+    | write m =>
+      simp only [writesOf, readsOf, writeAll] at hw hr
+      obtain ⟨w1, h1, h2⟩ := Res.bind_eq_ok.mp hw
+      obtain ⟨w2, h3, h4⟩ := Res.bind_eq_ok.mp h2
+      simp only [Res.pure_eq, Res.ok.injEq] at h4
+      subst h4
+      have := ih { e with out := outChunkAfter e.out m } inb w2 ms rest h3 hr
+      simp only [Endpoint.run, Endpoint.step, h1, Res.bind_ok, Res.pure_eq, this, outAfterAll, writesOf,
+        Option.toList, List.nil_append]
+    | read =>
+      simp only [writesOf, readsOf, readMessages] at hw hr
+      obtain ⟨⟨⟨m, st1⟩, bs1⟩, h1, h2⟩ := Res.bind_eq_ok.mp hr
+      obtain ⟨⟨⟨ms', st2⟩, bs2⟩, h3, h4⟩ := Res.bind_eq_ok.mp h2
+      simp only [Res.pure_eq, Res.ok.injEq, Prod.mk.injEq] at h4
+      obtain ⟨⟨rfl, rfl⟩, rfl⟩ := h4
+      have := ih { e with rd := st1 } bs1 W ms' bs2 hw h3
+      simp only [Endpoint.run, Endpoint.step, h1, Res.bind_ok, Res.pure_eq, this, Option.toList,
+        List.nil_append, List.singleton_append, writesOf]
+
 /-- Why the writer must follow its own announcement (defect F3, repaired): a writer that keeps the
 old chunk size after announcing a new one is NOT read back — concrete witness: Set Chunk Size 2, then
 a 3-byte message still written as one 128-byte chunk. -/
@@ -154,5 +191,18 @@ example : ∀ m ∈ [exSetChunk, exVideo], MsgOK m := by
 
 /-- The example session on the wire: after Set Chunk Size 7 the 300-byte message takes 43 chunks. -/
 example : (writeAll 128 [exSetChunk, exVideo]).isOk = true := by decide +kernel
+
+/-- `C01_duplex` on a concrete schedule: the endpoint announces chunk size 7, reads a 300-byte message the peer
+wrote with the default size 128, then writes the same message itself — in 7-byte chunks, while what it read came in
+128-byte chunks. -/
+example :
+    (match writeAll 128 [exVideo] with
+     | .ok peer =>
+       (match Endpoint.run {} peer [.write exSetChunk, .read, .write exVideo] with
+        | .ok ((e, w), (ms, rest)) =>
+          e.out == 7 && e.rd.inChunk == 128 && ms.map (·.payload) == [exVideo.payload] && rest == [] &&
+          decide (ok w = writeAll 128 [exSetChunk, exVideo])
+        | _ => false)
+     | _ => false) = true := by decide +kernel
 
 end Oryx.Props.C01
